@@ -25,6 +25,16 @@ CLAIMED = {
         "level": "Decides mirror agreement arm by arm (all Instruction variants, all IntCmp/FloatCmp rows, all arithmetic rows), loud fallbacks and checked-memory ordering; equality of results over all scripts is not decided.",
         "note": "Partial: clauses V1-V4. Memory::get's missing frame-id check is reported as a cross-reference only (no witness IR).",
     },
+    "C11": {
+        "technique": "ownership-structure analysis: ADT field tables (order, types, derived impls), who-may-call / who-may-construct over all MIR call and aggregate sites, origin tracing of pointers baked into generated code",
+        "level": "Decides the 'not before' direction structurally: what a handle owns, drop order, the single place JIT memory is freed, and that every absolute pointer in generated code points into module-owned storage. 'Exactly once over all drop histories' is Rust's ownership guarantee (trusted), not re-proved.",
+        "note": "Close to whole for keep-alive structure; H6 public-constructor witnesses are in the thorough tier.",
+    },
+    "C12": {
+        "technique": "audit of every unsafe impl Send/Sync with rustc's trait solver answers per field + checked obligations (trait supertraits, blanket-impl where-clauses, &mut-self methods, who-calls on the JIT module); statics inventory",
+        "level": "Decides the type-level sentence (safe Rust cannot share non-thread-safe state through the API) for every unsafe auto-trait impl in the crate; results under all schedules are not decided.",
+        "note": "Partial: clauses S1, S3.",
+    },
 }
 _PENDING = "check under construction in this session; not yet claimed"
 NOT_APPLICABLE = {p: _PENDING for p in
